@@ -154,6 +154,6 @@ theorem runValidate_results_indep (o : Opts) (i w : Bool) (hab : o.abortOnFirst 
   | error e => rfl
   | ok shapes =>
     simp only []
-    exact validateAll_results_indep ⟨⟨sg, dg, shapes, rx⟩, { o with focusNodes := if focus = [] then none else some focus }⟩ i w hab shapes none
+    exact validateAll_results_indep ⟨⟨sg, dg, shapes, rx, fun _ _ => none, fun _ => none⟩, { o with focusNodes := if focus = [] then none else some focus }⟩ i w hab shapes none
 
 end Pyshacl
